@@ -597,6 +597,44 @@ fn run_program_inner<G: ParRig>(prog: Program<G>) {
                     }
                 }
             }
+            // C12 on populated worlds: members of one reference group are either all run in their
+            // own stage or started early (as add-ons) while the previous stage runs. Two members
+            // with the same status must still be logically parallel with each other.
+            if kind != 0 {
+                for (gi, g) in groups.iter().enumerate() {
+                    let prev: &[usize] = if gi > 0 { &groups[gi - 1] } else { &[] };
+                    let early = |t: usize| -> bool {
+                        prev.iter().any(|&p| match (by_task.get(&p), by_task.get(&t)) {
+                            (Some(a), Some(b)) => logically_parallel(&a.path, &b.path),
+                            _ => false,
+                        })
+                    };
+                    for (x, &i) in g.iter().enumerate() {
+                        for &j in &g[x + 1..] {
+                            let (Some(a), Some(b)) = (by_task.get(&i), by_task.get(&j)) else { continue };
+                            if early(i) != early(j) {
+                                continue;
+                            }
+                            out.same_group_pairs_checked += 1;
+                            if !logically_parallel(&a.path, &b.path) {
+                                out.viols.push((
+                                    "C12".into(),
+                                    "independent_tasks_serialised".into(),
+                                    format!(
+                                        "{ctx}: tasks {i} ({}) and {j} ({}) have no conflicting access and are in one greedy group {:?} (both {}), but the schedule orders them (paths {:?} / {:?})",
+                                        prog.tasks[i].text,
+                                        prog.tasks[j].text,
+                                        g,
+                                        if early(i) { "started early beside the previous stage" } else { "run in their own stage" },
+                                        a.path,
+                                        b.path
+                                    ),
+                                ));
+                            }
+                        }
+                    }
+                }
+            }
             if out.samples.len() < 2 && !logs.is_empty() && kind != 0 {
                 out.samples.push(format!(
                     "{ctx}: fork/join paths {:?}; reach sizes {:?}; pair relation {shape}",
